@@ -5,6 +5,11 @@ import Proofs.C11Pol
 import Proofs.C11TA
 import Proofs.C11Scan
 import Proofs.C11Hist
+import Proofs.C11Sess
+import Proofs.C11Ops
+import Proofs.C11Iter
+import Proofs.C11Conc
+import Proofs.C11Rot
 /-! # C11 — host selection offers each live node once, nearest and replicas first (property theorems)
 
 Model: `Model/Policies.lean` (cowHostList, roundRobbin, roundRobinHostPolicy / dcAwareRR / rackAwareRR,
@@ -188,45 +193,27 @@ def cexB' : Host := ⟨2, 2, 0, 1, [20]⟩
 def cexC' : Host := ⟨3, 3, 0, 1, [30]⟩
 def cexD' : Host := ⟨4, 4, 1, 0, [40]⟩
 
-inductive TAOp
-  | add (h : Host) | remove (h : Host) | hostUp (h : Host) | hostDown (h : Host)
-  | setReplicas (ks : Nat) (tab : List (Nat × List Host))
-  | pick (up : Nat → Bool) (σ : List Host → List Host) (rk : Option (Nat × Nat)) (limit : Nat)
-  | setCtr (n : Nat)     -- the fallback policy has served n picks already (hook VerifSetPickCount)
-
-def TA.apply (t : TA) : TAOp → TA
-  | .add h => t.add h
-  | .remove h => t.remove h
-  | .hostUp h => t.hostUp h
-  | .hostDown h => t.hostDown h
-  | .setReplicas ks tab => t.setReplicas ks tab
-  | .pick up σ rk limit => (t.pick up σ rk limit).1
-  | .setCtr n => { t with pol := t.pol.setCtr n }
-
-theorem pick_pol (t : TA) (up : Nat → Bool) (σ : List Host → List Host) (rk : Option (Nat × Nat)) (limit : Nat) :
-    (t.pick up σ rk limit).1.pol = t.pol ∨ (t.pick up σ rk limit).1.pol = t.pol.bump := by
-  unfold TA.pick
-  simp only
-  repeat' split
-  all_goals first | exact Or.inl rfl | exact Or.inr rfl
+theorem TAInv_apply (t : TA) (hp : Inv t.pol) (o : TAOp) : Inv (t.apply o).pol := by
+  rw [apply_pol]
+  cases o with
+  | add h => exact Inv_add _ hp h
+  | remove h => exact Inv_remove _ hp h
+  | hostUp h => exact Inv_add _ hp h
+  | hostDown h => exact Inv_remove _ hp h
+  | setReplicas ks tab => exact hp
+  | pick up σ rk limit =>
+    show Inv (t.pick up σ rk limit).1.pol
+    rcases pick_pol t up σ rk limit with e | e <;> rw [e]
+    · exact hp
+    · exact Inv_bump _ hp
+  | setCtr n => exact Inv_setCtr _ hp n
+  | keyspaceChanged ks => exact hp
+  | setMeta ks v => exact hp
 
 theorem TAInv_run (t : TA) (hp : Inv t.pol) (ops : List TAOp) : Inv (ops.foldl TA.apply t).pol := by
   induction ops generalizing t with
   | nil => exact hp
-  | cons o r ih =>
-    apply ih
-    cases o with
-    | add h => exact Inv_add _ hp h
-    | remove h => exact Inv_remove _ hp h
-    | hostUp h => exact Inv_add _ hp h
-    | hostDown h => exact Inv_remove _ hp h
-    | setReplicas ks tab => exact hp
-    | pick up σ rk limit =>
-      show Inv (t.pick up σ rk limit).1.pol
-      rcases pick_pol t up σ rk limit with e | e <;> rw [e]
-      · exact hp
-      · exact Inv_bump _ hp
-    | setCtr n => exact Inv_setCtr _ hp n
+  | cons o r ih => exact ih _ (TAInv_apply t hp o)
 
 /-- a state used in the non-vacuity examples: rack-aware fallback, non-local fallback, replicas a (local rack, down below), c (local DC) -/
 def cexTAok : TA :=
@@ -306,23 +293,6 @@ theorem replicasFor_nodup (t : TA) (hrep : ∀ e ∈ t.replicas, ∀ f ∈ e.2, 
 theorem specHead_nil (tier : Host → Nat) (m : Nat) (up : Nat → Bool) (nl : Bool) : specHead tier m up nl [] = [] := by
   simp [specHead]
 
-theorem pick_opts (t : TA) (up : Nat → Bool) (σ : List Host → List Host) (rk : Option (Nat × Nat)) (limit : Nat) :
-    (t.pick up σ rk limit).1.nonlocal = t.nonlocal ∧ (t.pick up σ rk limit).1.shuffle = t.shuffle := by
-  unfold TA.pick
-  simp only
-  repeat' split
-  all_goals exact ⟨rfl, rfl⟩
-
-theorem run_opts (t : TA) (ops : List TAOp) :
-    (ops.foldl TA.apply t).nonlocal = t.nonlocal ∧ (ops.foldl TA.apply t).shuffle = t.shuffle := by
-  induction ops generalizing t with
-  | nil => exact ⟨rfl, rfl⟩
-  | cons o r ih =>
-    rw [List.foldl_cons]
-    refine ⟨(ih _).1.trans ?_, (ih _).2.trans ?_⟩
-    · cases o <;> first | rfl | exact (pick_opts t _ _ _ _).1
-    · cases o <;> first | rfl | exact (pick_opts t _ _ _ _).2
-
 /-- below the counter bound the iterator of the code offers the ideal sequence and does not panic -/
 theorem pickScan_ideal (t : TA) (up : Nat → Bool) (σ : List Host → List Host) (rk : Option (Nat × Nat))
     (hb : Pol.below t.pol) (l : List Host) (hl : t.pickSeq up σ rk = .seq l) : t.pickScan up σ rk = ⟨l, false⟩ := by
@@ -345,9 +315,9 @@ host the fallback policy knows; it starts with the up replicas of the token tier
 first, farther tiers only with NonLocalReplicasFallback; replica-list order inside a tier, i.e. primary
 first unless shuffling) — for EVERY replica list, also when a middle tier has no replica (KF-C11-1) — and
 continues with hosts in the fallback policy's order, which is ordered by tier. -/
-theorem C11_tokenaware_all_states_partial (k : Kind) (ldc lrack : Nat) (sh nl ps : Bool) (ops : List TAOp)
+theorem C11_tokenaware_all_states_partial (k : Kind) (ldc lrack : Nat) (sh nl ps : Bool) (sess : Option Nat) (ops : List TAOp)
     (up : Nat → Bool) (σ : List Host → List Host) (hσ : ∀ l, (σ l).Perm l) (rk : Option (Nat × Nat)) :
-    let t := ops.foldl TA.apply (TA.new (Pol.new k ldc lrack) sh nl ps)
+    let t := ops.foldl TA.apply (TA.new (Pol.new k ldc lrack) sh nl ps sess)
     (∀ e ∈ t.replicas, ∀ f ∈ e.2, f.2.Nodup) →
     ∃ l, t.pickSeq up σ rk = .seq l ∧ (Pol.below t.pol → t.pickScan up σ rk = ⟨l, false⟩) ∧
       l.Nodup ∧ (∀ h ∈ l, up h.id = true) ∧ (∀ h, known t.pol h → up h.id = true → h ∈ l) ∧
@@ -545,18 +515,6 @@ The "every expected host is offered" half holds for every history (`C11_history_
 Assumption of both: two different host objects of the history have different connect addresses (`NoAlias`;
 the lists identify hosts by address). -/
 
-def TAOp.ev : TAOp → Option (Ev × Host)
-  | .add h => some (.add, h)
-  | .remove h => some (.remove, h)
-  | .hostUp h => some (.hup, h)
-  | .hostDown h => some (.hdown, h)
-  | _ => none
-
-/-- the notifier calls of an operation history, oldest first -/
-def evsOf (ops : List TAOp) : List (Ev × Host) := ops.filterMap TAOp.ev
-def hostsOf (ops : List TAOp) : List Host := (evsOf ops).map (·.2)
-def NoAlias (ops : List TAOp) : Prop := ∀ a ∈ hostsOf ops, ∀ b ∈ hostsOf ops, a.addr = b.addr → a = b
-
 theorem hist_add (U : Host → Prop) (hU : ∀ a b, U a → U b → a.addr = b.addr → a = b)
     (p : Pol) (S0 : Host → Status) (h : Host) (hh : U h) (e : Ev) (he : e = .add ∨ e = .hup)
     (hp : Inv p) (hk : ∀ x, known p x → U x) (hs : ∀ x, known p x ↔ (S0 x).inList = true) :
@@ -628,6 +586,10 @@ theorem hist_run (U : Host → Prop) (hU : ∀ a b, U a → U b → a.addr = b.a
       obtain ⟨a, b, c⟩ := hist_remove U hU t.pol S0 h (hops _ List.mem_cons_self .hdown h rfl) .hdown (Or.inr rfl) hp hk hs
       exact ih (t.hostDown h) (fun x => if h = x then (S0 x).step .hdown else S0 x) hr a b c
     | setReplicas ks tab => exact ih (t.setReplicas ks tab) S0 hr hp hk hs
+    | keyspaceChanged ks =>
+      have e : (t.keyspaceChanged ks).pol = t.pol := (updateReplicas_fields t ks).1
+      exact ih (t.keyspaceChanged ks) S0 hr (e ▸ hp) (e ▸ hk) (e ▸ hs)
+    | setMeta ks v => exact ih (t.setMeta ks v) S0 hr hp hk hs
     | setCtr n => exact ih { t with pol := t.pol.setCtr n } S0 hr (Inv_setCtr _ hp n) hk hs
     | pick up σ rk limit =>
       apply ih (t.pick up σ rk limit).1 S0 hr
@@ -643,15 +605,15 @@ theorem hist_run (U : Host → Prop) (hU : ∀ a b, U a → U b → a.addr = b.a
 
 /-- in every reachable state the fallback policy lists exactly the hosts whose last notifier call was
 `AddHost` or `HostUp` -/
-theorem hist_final (k : Kind) (ldc lrack : Nat) (sh nl ps : Bool) (ops : List TAOp) (hna : NoAlias ops) :
-    Inv (ops.foldl TA.apply (TA.new (Pol.new k ldc lrack) sh nl ps)).pol ∧
-    ∀ x, known (ops.foldl TA.apply (TA.new (Pol.new k ldc lrack) sh nl ps)).pol x ↔
+theorem hist_final (k : Kind) (ldc lrack : Nat) (sh nl ps : Bool) (sess : Option Nat) (ops : List TAOp) (hna : NoAlias ops) :
+    Inv (ops.foldl TA.apply (TA.new (Pol.new k ldc lrack) sh nl ps sess)).pol ∧
+    ∀ x, known (ops.foldl TA.apply (TA.new (Pol.new k ldc lrack) sh nl ps sess)).pol x ↔
       (statusOf (evsOf ops) x).inList = true := by
   have hops : ∀ o ∈ ops, ∀ e h, o.ev = some (e, h) → h ∈ hostsOf ops := by
     intro o ho e h he
     exact List.mem_map.mpr ⟨(e, h), List.mem_filterMap.mpr ⟨o, ho, he⟩, rfl⟩
   have := hist_run (fun h => h ∈ hostsOf ops) (fun a b ha hb => hna a ha b hb) ops
-    (TA.new (Pol.new k ldc lrack) sh nl ps) (fun _ => Status.init) hops (Inv_new k ldc lrack)
+    (TA.new (Pol.new k ldc lrack) sh nl ps sess) (fun _ => Status.init) hops (Inv_new k ldc lrack)
     (fun x hx => by simp [known, Pol.new, TA.new] at hx)
     (fun x => by simp [known, Pol.new, TA.new, Status.inList, Status.init])
   exact ⟨this.1, this.2.2⟩
@@ -695,27 +657,25 @@ policy kind — bare (`rk = none`: the sequence is the fallback policy's own) or
 every option, up/down state and query: below the counter bound the drained iterator of the code does not
 panic and offers `l`; `l` has only hosts whose state is up, and EVERY host the history expects (added and not
 removed since, last call not `HostDown`, state up) is in `l`. -/
-theorem C11_history_complete (k : Kind) (ldc lrack : Nat) (sh nl ps : Bool) (ops : List TAOp)
+theorem C11_history_complete (k : Kind) (ldc lrack : Nat) (sh nl ps : Bool) (sess : Option Nat) (ops : List TAOp)
     (up : Nat → Bool) (σ : List Host → List Host) (rk : Option (Nat × Nat)) (hna : NoAlias ops) :
-    let t := ops.foldl TA.apply (TA.new (Pol.new k ldc lrack) sh nl ps)
+    let t := ops.foldl TA.apply (TA.new (Pol.new k ldc lrack) sh nl ps sess)
     ∃ l, t.pickSeq up σ rk = .seq l ∧ (Pol.below t.pol → t.pickScan up σ rk = ⟨l, false⟩) ∧
       (∀ h ∈ l, up h.id = true) ∧
       ∀ x, (statusOf (evsOf ops) x).expected (up x.id) = true → x ∈ l := by
   intro t
-  obtain ⟨hp, hkn⟩ := hist_final k ldc lrack sh nl ps ops hna
+  obtain ⟨hp, hkn⟩ := hist_final k ldc lrack sh nl ps sess ops hna
   obtain ⟨l, hl, hc, hm⟩ := pickSeq_struct t hp up σ rk
   refine ⟨l, hl, fun hb => pickScan_ideal t up σ rk hb l hl, fun h hh => (hm h hh).1, ?_⟩
   intro x hx
   obtain ⟨h1, h2⟩ := expected_inList _ (wf_statusOf _ x) _ hx
   exact hc x ((hkn x).mpr h1) h2
 
-/-- EXACTNESS against the history (partial: no ghost, no stale replica — see the section comment): under the
-hypotheses of `C11_tokenaware_all_states_partial`, if no host is a ghost and every host of the specified
-replica head is expected by the history, the drained iterator offers EXACTLY the expected hosts, each once:
-`l` is a permutation of the expected hosts of any duplicate-free universe containing the hosts of the history. -/
-theorem C11_history_exact_partial (k : Kind) (ldc lrack : Nat) (sh nl ps : Bool) (ops : List TAOp)
+/-- core of the exactness theorem: if no host is a ghost and every host of the specified replica head is
+expected by the history, the drained iterator offers exactly the expected hosts, each once -/
+theorem history_exact_core (k : Kind) (ldc lrack : Nat) (sh nl ps : Bool) (sess : Option Nat) (ops : List TAOp)
     (up : Nat → Bool) (σ : List Host → List Host) (hσ : ∀ l, (σ l).Perm l) (rk : Option (Nat × Nat)) (hna : NoAlias ops) :
-    let t := ops.foldl TA.apply (TA.new (Pol.new k ldc lrack) sh nl ps)
+    let t := ops.foldl TA.apply (TA.new (Pol.new k ldc lrack) sh nl ps sess)
     let S := fun x => statusOf (evsOf ops) x
     (∀ e ∈ t.replicas, ∀ f ∈ e.2, f.2.Nodup) →
     (∀ x, (S x).ghost = false) →
@@ -725,9 +685,9 @@ theorem C11_history_exact_partial (k : Kind) (ldc lrack : Nat) (sh nl ps : Bool)
       ∀ univ : List Host, univ.Nodup → (∀ h ∈ hostsOf ops, h ∈ univ) →
         l.Perm (univ.filter (fun x => (S x).expected (up x.id))) := by
   intro t S hrep hg hst
-  obtain ⟨hp, hkn⟩ := hist_final k ldc lrack sh nl ps ops hna
+  obtain ⟨hp, hkn⟩ := hist_final k ldc lrack sh nl ps sess ops hna
   obtain ⟨l, hl, hscan, hnd, hup, hcomp, rest, hrest, hsub, _⟩ :=
-    C11_tokenaware_all_states_partial k ldc lrack sh nl ps ops up σ hσ rk hrep
+    C11_tokenaware_all_states_partial k ldc lrack sh nl ps sess ops up σ hσ rk hrep
   have hmem : ∀ x, x ∈ l ↔ (S x).expected (up x.id) = true := by
     intro x
     constructor
@@ -753,6 +713,136 @@ theorem C11_history_exact_partial (k : Kind) (ldc lrack : Nat) (sh nl ps : Bool)
     simp only [Status.expected, Bool.and_eq_true] at hx
     exact hx.1.1
   · exact fun hx => hx.2
+
+/-! ### which replica lists are FRESH — the exact extent of finding KF-C11-5
+
+`AddHost` / `RemoveHost` that change the policy's host list rebuild the token ring and recompute the replica
+table of the SESSION keyspace (`updateReplicas(meta, t.getKeyspaceName())`) under the policy's mutex; nothing
+else is recomputed (the tables of other keyspaces only on `KeyspaceChanged`), and `HostUp` / `HostDown` touch
+neither. So a replica list taken from the ring or from the session keyspace's table only lists hosts that are
+added and not removed; what stays excluded is (a) a removed host in the table of ANOTHER keyspace and (b) a
+host reported down (`HostDown`) whose state is still up — `C11_cex_stale_replica`. -/
+
+/-- the replica list of the query comes from the session keyspace's table (into which no table was installed
+from outside) or from the token ring -/
+def FreshQuery (t : TA) (ops : List TAOp) (rk : Option (Nat × Nat)) : Prop :=
+  match rk with
+  | none => True
+  | some (ks, tok) => (t.sessKs = some ks ∧ ∀ o ∈ ops, o.noInject ks) ∨ (∃ l, t.replicasFor ks tok = .hosts l false)
+
+theorem hostsHist_final (k : Kind) (ldc lrack : Nat) (sh nl ps : Bool) (sess : Option Nat) (ops : List TAOp) (hna : NoAlias ops) :
+    ∀ x, x ∈ (ops.foldl TA.apply (TA.new (Pol.new k ldc lrack) sh nl ps sess)).hosts ↔
+      (statusOf (evsOf ops) x).known = true := by
+  have hops : ∀ o ∈ ops, ∀ e h, o.ev = some (e, h) → h ∈ hostsOf ops := by
+    intro o ho e h he
+    exact List.mem_map.mpr ⟨(e, h), List.mem_filterMap.mpr ⟨o, ho, he⟩, rfl⟩
+  exact hostsHist_run (fun h => h ∈ hostsOf ops) (fun a b ha hb => hna a ha b hb) ops
+    (TA.new (Pol.new k ldc lrack) sh nl ps sess) (fun _ => Status.init) hops
+    (fun x hx => by simp [TA.new] at hx)
+    (fun x => by simp [TA.new, Status.init])
+
+/-- In every reachable state (any history of AddHost / RemoveHost / HostUp / HostDown / KeyspaceChanged /
+metadata changes / replica tables installed from outside into OTHER keyspaces / picks), for every query whose
+replica list comes from the session keyspace's table or from the token ring: every host of the replica list is
+in the policy's own host list — and, the hosts of the history having pairwise different addresses, that list
+is exactly the hosts added and not removed since. A removed host is never a replica of such a query. -/
+theorem C11_session_table_fresh (k : Kind) (ldc lrack : Nat) (sh nl ps : Bool) (sess : Option Nat) (ops : List TAOp)
+    (σ : List Host → List Host) (hσ : ∀ l, (σ l).Perm l) (rk : Option (Nat × Nat)) (hna : NoAlias ops) :
+    let t := ops.foldl TA.apply (TA.new (Pol.new k ldc lrack) sh nl ps sess)
+    FreshQuery t ops rk →
+    ∀ x ∈ (repsOf t σ rk).getD [], x ∈ t.hosts ∧ (statusOf (evsOf ops) x).known = true := by
+  intro t hfq x hx
+  have hsess : t.sessKs = sess := (run_opts _ ops).2.2.1
+  have hfresh : (∀ ks, sess = some ks → ∀ o ∈ ops, o.noInject ks) → SessFresh t := fun hn =>
+    sessFresh_run ops (TA.new (Pol.new k ldc lrack) sh nl ps sess)
+      (fun s _ e he => by simp [TA.new] at he) hn
+  suffices h : x ∈ t.hosts from ⟨h, (hostsHist_final k ldc lrack sh nl ps sess ops hna x).mp h⟩
+  cases rk with
+  | none => simp [repsOf] at hx
+  | some kt =>
+    obtain ⟨ks, tok⟩ := kt
+    simp only [repsOf] at hx
+    cases hr : t.replicasFor ks tok with
+    | noRing => rw [hr] at hx; simp at hx
+    | emptyRing => rw [hr] at hx; simp at hx
+    | hosts l ft =>
+      rw [hr] at hx
+      simp only [Option.getD_some] at hx
+      have hxl : x ∈ l := by
+        split at hx
+        · exact (hσ l).mem_iff.mp hx
+        · exact hx
+      have hr' := hr
+      unfold TA.replicasFor at hr
+      split at hr
+      · cases hr
+      · split at hr
+        · rename_i l' hl'
+          injection hr with e1 e2
+          subst e1 e2
+          rw [Option.bind_eq_some_iff] at hl'
+          obtain ⟨e, he, hlk⟩ := hl'
+          obtain ⟨k', hk'⟩ := lookupTok_mem e.2 tok _ hlk
+          have heks : e.1 = ks := by simpa using List.find?_some he
+          rcases hfq with ⟨h1, h2⟩ | ⟨l2, h2⟩
+          · have hs : sess = some ks := hsess ▸ h1
+            refine hfresh (fun ks' hk2 => ?_) ks h1 e (List.mem_of_find?_eq_some he) heks _ hk' x hxl
+            rw [hs] at hk2; injection hk2 with hk2; subst hk2; exact h2
+          · rw [hr'] at h2; cases h2
+        · split at hr
+          · rename_i h hh
+            injection hr with e1 e2
+            subst e1
+            simp only [List.mem_singleton] at hxl
+            subst hxl
+            obtain ⟨k', hk'⟩ := lookupTok_mem _ tok _ hh
+            exact ringOf_sub t.hosts _ hk'
+          · cases hr
+
+/-- EXACTNESS against the history (partial — see the section comments): under the hypotheses of
+`C11_tokenaware_all_states_partial`, if no host is a ghost (KF-C11-4), no host of the specified replica head
+was last reported down by `HostDown` (KF-C11-5b), and the replica list is fresh — it comes from the SESSION
+keyspace's table or from the token ring — or else (the table of another keyspace, KF-C11-5a) lists no host
+that is not known, then the drained iterator offers EXACTLY the hosts the history expects, each once: `l` is a
+permutation of the expected hosts of any duplicate-free universe containing the hosts of the history.
+In particular a REMOVED host offered as replica for a query of the session keyspace is not excused. -/
+theorem C11_history_exact_partial (k : Kind) (ldc lrack : Nat) (sh nl ps : Bool) (sess : Option Nat) (ops : List TAOp)
+    (up : Nat → Bool) (σ : List Host → List Host) (hσ : ∀ l, (σ l).Perm l) (rk : Option (Nat × Nat)) (hna : NoAlias ops) :
+    let t := ops.foldl TA.apply (TA.new (Pol.new k ldc lrack) sh nl ps sess)
+    let S := fun x => statusOf (evsOf ops) x
+    (∀ e ∈ t.replicas, ∀ f ∈ e.2, f.2.Nodup) →
+    (∀ x, (S x).ghost = false) →
+    (∀ x ∈ specHead t.pol.tier t.pol.maxTier up nl ((repsOf t σ rk).getD []), (S x).last ≠ some .hdown) →
+    (FreshQuery t ops rk ∨
+      ∀ x ∈ specHead t.pol.tier t.pol.maxTier up nl ((repsOf t σ rk).getD []), (S x).known = true) →
+    ∃ l, t.pickSeq up σ rk = .seq l ∧ (Pol.below t.pol → t.pickScan up σ rk = ⟨l, false⟩) ∧ l.Nodup ∧
+      (∀ x, x ∈ l ↔ (S x).expected (up x.id) = true) ∧
+      ∀ univ : List Host, univ.Nodup → (∀ h ∈ hostsOf ops, h ∈ univ) →
+        l.Perm (univ.filter (fun x => (S x).expected (up x.id))) := by
+  intro t S hrep hg hdown hfresh
+  apply history_exact_core k ldc lrack sh nl ps sess ops up σ hσ rk hna hrep hg
+  intro x hx
+  have hk : (S x).known = true := by
+    rcases hfresh with hf | hf
+    · have hxr : x ∈ (repsOf t σ rk).getD [] := by
+        rw [← taHead_eq_specHead] at hx
+        exact (mem_taHead _ _ _ _ _ x hx).1
+      exact (C11_session_table_fresh k ldc lrack sh nl ps sess ops σ hσ rk hna hf x hxr).2
+    · exact hf x hx
+  have hl := hdown x hx
+  simp only [Status.expected, Bool.and_true, Bool.and_eq_true, bne_iff_ne, ne_eq]
+  exact ⟨hk, hl⟩
+
+/-- non-vacuity, and what the exact exclusion is about: session keyspace 0 with SimpleStrategy rf 2; after
+`RemoveHost(r)` the recomputed table no longer lists r — a routed query of the session keyspace is offered
+exactly the remaining host (had the table been computed from the ring BEFORE it was rebuilt, r would still
+lead the sequence) -/
+example :
+    let ops := [TAOp.setMeta 0 (some (some 2)), .add ⟨1, 1, 0, 0, [100]⟩, .add ⟨9, 9, 1, 0, [900]⟩, .remove ⟨9, 9, 1, 0, [900]⟩]
+    let t := ops.foldl TA.apply (TA.new (Pol.new .dc 0 0) false true true (some 0))
+    t.replicas = [(0, [(100, [⟨1, 1, 0, 0, [100]⟩])])] ∧
+    t.pickScan (fun _ => true) id (some (0, 500)) = ⟨[⟨1, 1, 0, 0, [100]⟩], false⟩ := by
+  decide
 
 def cexR : Host := ⟨9, 9, 1, 0, []⟩   -- remote DC
 /-- COUNTEREXAMPLE, ghost (kernel-checked): `HostUp` of a host that was never added — and of one that was
@@ -781,12 +871,355 @@ theorem C11_cex_stale_replica :
     (statusOf (evsOf [TAOp.add cexW1, .add cexW2, .setReplicas 0 [(100, [cexW2])], .hostDown cexW2]) cexW2).expected true = false := by
   decide
 
+def cexS1 : Host := ⟨1, 1, 0, 0, [100]⟩
+def cexS2 : Host := ⟨2, 2, 0, 0, [200]⟩
+/-- COUNTEREXAMPLE for what stays excluded also on the SESSION keyspace (kernel-checked), KF-C11-5b: round-robin
+fallback, session keyspace 0 with SimpleStrategy rf 1 (table computed by the policy itself: 100 → [1], 200 → [2]);
+after `HostDown(2)` with the `HostInfo` state still up, a routed query of the session keyspace is offered host 2
+first although the history does not expect it — `HostDown` refreshes nothing. (After `RemoveHost(2)` it is not:
+the example after `C11_history_exact_partial`.) -/
+theorem C11_cex_stale_down_session :
+    let ops := [TAOp.setMeta 0 (some (some 1)), .add cexS1, .add cexS2, .hostDown cexS2]
+    let t := ops.foldl TA.apply (TA.new (Pol.new .rr 0 0) false false true (some 0))
+    t.replicas = [(0, [(100, [cexS1]), (200, [cexS2])])] ∧
+    t.pickScan (fun _ => true) id (some (0, 150)) = ⟨[cexS2, cexS1], false⟩ ∧
+    (statusOf (evsOf ops) cexS2).expected true = false ∧ (statusOf (evsOf ops) cexS2).known = true := by
+  decide
+
 /-- non-vacuity: the history add, down, add (what `Session.startPoolFill` does on a node-up event) — the host
 is expected and offered, routed or not -/
 example :
     let ops := [TAOp.add cexW1, .add cexW2, .hostDown cexW2, .add cexW2]
     (statusOf (evsOf ops) cexW2).expected true = true ∧
     (ops.foldl TA.apply (TA.new (Pol.new .dc 0 0) false false true)).pickScan (fun _ => true) id none = ⟨[cexW1, cexW2], false⟩ := by
+  decide
+
+/-! ## several iterators alive at once
+
+The iterator `Pick` returns is consumed lazily by the query executor while other queries call `Pick` on the same
+policy (retries, speculative executions, concurrent queries of one partition). `IOp` / `istep` (Proofs/C11Iter):
+any interleaving of `open` (slot := Pick), `next` (one call of a slot's iterator) and whole picks of others;
+the up/down state is fixed while the iterators are alive. -/
+
+/-- For EVERY interleaving of the calls of any number of live iterators (and picks of others in between): the
+policy state only moves its rotation counter; every live iterator is `IterOk` — its replica phases are those
+fixed at its `Pick` (own shuffled copy of the replica list), and once its fallback iterator exists, what it has
+offered plus what it will offer is the sequence of a LONE `Pick` + drain at the counter value of that moment —
+and when an iterator returns nil, what it offered since its `Pick` is exactly `(t0.withCtr c).pickScan`, the
+drained lone pick at some counter value `c`, without a panic. Iterators do not disturb one another. -/
+theorem C11_iterators_independent (t0 : TA) (up : Nat → Bool) (sched : List IOp) :
+    let st := sched.foldl (istep up) (t0, fun _ => none)
+    (∃ c, st.1 = t0.withCtr c) ∧
+    ∀ k g, st.2 k = some g → IterOk up t0 g ∧
+      (∀ x, (st.1.nextIter up g.it).2.2 = .host x → (st.1.nextIter up g.it).2.1.given = g.it.given ++ [x]) ∧
+      ((st.1.nextIter up g.it).2.2 = .done →
+        ∃ c, (t0.withCtr c).pickScan up g.σ g.rk = ⟨g.it.given, false⟩) := by
+  intro st
+  obtain ⟨⟨c, hc⟩, hok⟩ := iter_run up t0 sched (t0, fun _ => none) ⟨t0.pol.ctr, rfl⟩ (fun k g hk => by cases hk)
+  refine ⟨⟨c, hc⟩, fun k g hk => ?_⟩
+  have hg := hok k g hk
+  obtain ⟨_, _, h3, h4⟩ := next_ok up t0 c g hg
+  rw [hc]
+  exact ⟨hg, h3, fun hd => (h4 hd).2⟩
+
+/-- THE PROPERTY for an iterator that was consumed interleaved with others: in every reachable state `t0` (any
+history `hist`), for every schedule, an iterator that has returned nil offered — at some counter value `c` — the
+drained sequence of the code in the reachable state `hist ++ [setCtr c]`, which has the same notifier history;
+below the counter bound (KF-C11-3) that is the ideal sequence of that state, to which
+`C11_tokenaware_all_states_partial` (no host twice, only up hosts, every known up host, specified replica head
+first), `C11_history_complete` and `C11_history_exact_partial` apply as they stand. -/
+theorem C11_interleaved_iterator_partial (k : Kind) (ldc lrack : Nat) (sh nl ps : Bool) (sess : Option Nat)
+    (hist : List TAOp) (up : Nat → Bool) (sched : List IOp) (slot : Nat) (g : GSlot) :
+    let t0 := hist.foldl TA.apply (TA.new (Pol.new k ldc lrack) sh nl ps sess)
+    let st := sched.foldl (istep up) (t0, fun _ => none)
+    st.2 slot = some g → (st.1.nextIter up g.it).2.2 = .done →
+    ∃ c, (t0.withCtr c).pickScan up g.σ g.rk = ⟨g.it.given, false⟩ ∧
+      evsOf (hist ++ [TAOp.setCtr c]) = evsOf hist ∧
+      (Pol.below (t0.withCtr c).pol →
+        t0.withCtr c = (hist ++ [TAOp.setCtr c]).foldl TA.apply (TA.new (Pol.new k ldc lrack) sh nl ps sess) ∧
+        (t0.withCtr c).pickSeq up g.σ g.rk = .seq g.it.given) := by
+  intro t0 st hslot hdone
+  obtain ⟨_, h2⟩ := C11_iterators_independent t0 up sched
+  obtain ⟨c, hc⟩ := (h2 slot g hslot).2.2 hdone
+  refine ⟨c, hc, by simp [evsOf, TAOp.ev], fun hb => ?_⟩
+  have hlt : c < 18446744073709551616 := by
+    have hne : (t0.withCtr c).pol.layers ≠ [] := by unfold Pol.layers; split <;> simp
+    obtain ⟨l, hl⟩ := List.exists_mem_of_ne_nil _ hne
+    have := hb l hl
+    have e : (t0.withCtr c).pol.ctr = c := rfl
+    rw [e] at this
+    omega
+  refine ⟨?_, ?_⟩
+  · rw [List.foldl_append]
+    simp only [List.foldl_cons, List.foldl_nil, TA.apply, Pol.setCtr, Nat.mod_eq_of_lt hlt]
+    rfl
+  · have hno : (t0.withCtr c).pickSeq up g.σ g.rk ≠ .crash := (C11_tokenaware_no_crash_partial _ up g.σ g.rk).1
+    cases hps : (t0.withCtr c).pickSeq up g.σ g.rk with
+    | crash => exact absurd hps hno
+    | seq l =>
+      have := pickScan_ideal (t0.withCtr c) up g.σ g.rk hb l hps
+      rw [hc] at this
+      injection this with e _
+      rw [e]
+
+/-- non-vacuity: two iterators over one token range (replicas b, c), interleaved A1 B1 B2 B3 A2 A3: both offer
+the replicas first and every host once; the fallback counter is taken when each leaves its replica phases -/
+example :
+    let t0 := cexTAok
+    let st := [IOp.openI 0 id (some (0, 50)), .nextI 0, .openI 1 id (some (0, 50)), .nextI 1, .nextI 1, .nextI 1, .nextI 1, .nextI 0, .nextI 0, .nextI 0].foldl
+      (istep (fun _ => true)) (t0, fun _ => none)
+    (st.2 0).map (·.it.given) = some [cexA', cexC', cexB', cexD'] ∧ (st.2 1).map (·.it.given) = some [cexA', cexC', cexB', cexD'] := by
+  decide
+
+/-! ## concurrent AddHost / RemoveHost / HostUp / HostDown: the copy-on-write list under its mutex
+
+`cowHostList.add` / `remove` are `mu.Lock(); l := list.Load(); newL := copy; list.Store(newL); mu.Unlock()`.
+`Policies.Cow`: `n` calls run concurrently, a schedule picks the thread of every atomic step. -/
+
+/-- LINEARIZABILITY, for EVERY schedule of the atomic steps (lock; load; copy; store; unlock) of any number of
+concurrent `add` / `remove` calls on one copy-on-write list with the mutex discipline the unchanged code has:
+once all calls have returned the list is the result of the calls applied one after the other in some order of
+ALL of them — no call is lost. -/
+theorem C11_cow_concurrent_linearizable (n : Nat) (ops : Nat → CowOp) (l0 : List Host) (sched : List Nat) :
+    let s := Cow.run true n (fun i => (ops i).apply) (Cow.init l0) sched
+    s.allDone n = true →
+    ∃ order : List Nat, order.Perm (List.range n) ∧ s.shared = Cow.seq (fun i => (ops i).apply) order l0 :=
+  fun hd => cow_linearizable n (fun i => (ops i).apply) l0 sched hd
+
+/-- COMMUTING calls: if the `n` concurrent calls are about pairwise different connect addresses (AddHost /
+HostUp / RemoveHost / HostDown of different hosts), then for EVERY schedule the final list holds exactly the
+hosts that were there and whose address no call removes, and the added hosts whose address was free — the
+same set whatever the interleaving: the calls commute and none is lost. -/
+theorem C11_cow_concurrent_commute (n : Nat) (ops : Nat → CowOp) (l0 : List Host) (sched : List Nat)
+    (hd : ∀ a, a < n → ∀ b, b < n → (ops a).touch = (ops b).touch → a = b) :
+    let s := Cow.run true n (fun i => (ops i).apply) (Cow.init l0) sched
+    s.allDone n = true →
+    ∀ x, x ∈ s.shared ↔
+      (x ∈ l0 ∧ ∀ i, i < n → ops i ≠ .remove x.addr) ∨ (∃ i, i < n ∧ ops i = .add x ∧ ∀ y ∈ l0, y.addr ≠ x.addr) := by
+  intro s hdone x
+  obtain ⟨order, hperm, hs⟩ := C11_cow_concurrent_linearizable n ops l0 sched hdone
+  have hmem : ∀ i, i ∈ order ↔ i < n := fun i => by rw [hperm.mem_iff, List.mem_range]
+  rw [hs, seq_mem_char ops order (fun a ha b hb => hd a ((hmem a).mp ha) b ((hmem b).mp hb))
+    (hperm.nodup_iff.mpr List.nodup_range) l0 x]
+  constructor
+  · rintro (⟨h1, h2⟩ | ⟨i, hi, h1, h2⟩)
+    · exact Or.inl ⟨h1, fun i hi => h2 i ((hmem i).mpr hi)⟩
+    · exact Or.inr ⟨i, (hmem i).mp hi, h1, h2⟩
+  · rintro (⟨h1, h2⟩ | ⟨i, hi, h1, h2⟩)
+    · exact Or.inl ⟨h1, fun i hi => h2 i ((hmem i).mp hi)⟩
+    · exact Or.inr ⟨i, (hmem i).mpr hi, h1, h2⟩
+
+/-- COUNTEREXAMPLE without the mutex discipline (kernel-checked): the variant that loads and copies OUTSIDE the
+mutex and only serialises the Store (load; copy; lock; store; unlock). Two concurrent `add` calls for different
+hosts, schedule: both load, both copy, then each locks, stores, unlocks — both calls return, the second Store
+overwrites the first: host 1 is lost. The same schedule under the code's discipline keeps both. -/
+theorem C11_cex_cow_unlocked_lost_update :
+    let fs : Nat → List Host → List Host := fun i l => (cowAdd l (if i = 0 then cexW1 else cexW2)).1
+    let sched := [0, 1, 0, 1, 0, 0, 0, 1, 1, 1]
+    (Cow.run false 2 fs (Cow.init [cexW3]) sched).allDone 2 = true ∧
+    (Cow.run false 2 fs (Cow.init [cexW3]) sched).shared = [cexW3, cexW2] ∧
+    (Cow.run true 2 fs (Cow.init [cexW3]) (sched ++ [1, 1, 1, 1, 1])).allDone 2 = true ∧
+    (Cow.run true 2 fs (Cow.init [cexW3]) (sched ++ [1, 1, 1, 1, 1])).shared = [cexW3, cexW1, cexW2] := by
+  decide
+
+/-! ## rotation of the starting host PER TIER (fourth round; seeded change C11-8)
+
+Property text: "for the round-robin based policies successive queries rotate the starting host within a tier so
+load is spread". `C11_rr_rotates_partial` says it for the positions of ONE layer; a change that keeps the local
+rack rotating but feeds the farther tiers a reduced shift (C11-8: `nextStartOffset %= len(local rack)`) keeps
+every sequence complete, duplicate free and tier ordered. What it breaks is stated here for ALL tier shapes:
+the ONE shared shift moves the start position of EVERY tier on by one per pick (`C11_rr_rotates_tiers_partial`),
+hence over whole periods every start position of a tier is used equally often (`C11_rotation_histogram`), hence
+the first-host histogram of every tier over ANY number of successive picks is balanced — the verdict of the
+spec-backed op `rotate` (`C11_rotation_balanced_partial`). As everywhere for the iterator of the code: below the
+counter bound of KF-C11-3. -/
+
+/-- the state of the non-vacuity examples and of the regression below: rack-aware, tiers of 1 / 4 / 3 hosts -/
+def rotP : Pol :=
+  { Pol.new .rack 0 0 with
+    l0 := [⟨1, 1, 0, 0, []⟩]
+    l1 := [⟨2, 2, 0, 1, []⟩, ⟨3, 3, 0, 1, []⟩, ⟨4, 4, 0, 1, []⟩, ⟨5, 5, 0, 1, []⟩]
+    l2 := [⟨6, 6, 1, 0, []⟩, ⟨7, 7, 1, 0, []⟩, ⟨8, 8, 1, 0, []⟩] }
+
+theorem filter_true_id (l : List Host) : l.filter (fun _ => true) = l :=
+  List.filter_eq_self.mpr (fun _ _ => rfl)
+
+theorem repeat_pick (up : Nat → Bool) : ∀ (j : Nat) (p : Pol), p.ctr + j < 18446744073709551616 →
+    Nat.repeat (fun q => (q.pick up).1) j p = { p with ctr := p.ctr + j } := by
+  intro j
+  induction j with
+  | zero => intro p _; rfl
+  | succ j ih =>
+    intro p h
+    show (fun q : Pol => (q.pick up).1) (Nat.repeat (fun q => (q.pick up).1) j p) = _
+    rw [ih p (by omega)]
+    show Pol.bump _ = _
+    unfold Pol.bump
+    simp only
+    rw [Nat.mod_eq_of_lt (by omega)]
+    rfl
+
+/-- ROTATION PER TIER, for all tier shapes (any sizes of the three lists, also 0 and 1, sizes that do not divide
+each other) and any up/down state: in every policy state with the list invariant, `j` successive picks later
+(below the counter bound) the counter stands at `ctr + j`, the iterator of the code does not panic, and from
+EVERY tier `t` — not only the first non-empty one — the first host it offers is the first up host of tier `t`'s
+list scanned cyclically from list position `(ctr + j + 2) mod n_t`: one pick later every tier starts one
+position further. -/
+theorem C11_rr_rotates_tiers_partial (p : Pol) (hp : Inv p) (up : Nat → Bool) (j t : Nat) (ht : t < 3)
+    (hb : ∀ l ∈ p.layers, p.ctr + j + 1 + l.length < 9223372036854775808) :
+    let q : Pol := { p with ctr := p.ctr + j }
+    Nat.repeat (fun q => (q.pick up).1) j p = q ∧
+    q.pickScan up = ⟨rrSeq up (p.ctr + j + 1) [p.l0, p.l1, p.l2], false⟩ ∧
+    tierFirst p.tier t (q.pickScan up).offered =
+      firstFrom (fun h => up h.id) (p.getLayer t) ((p.ctr + j + 2) % (p.getLayer t).length) := by
+  intro q
+  have hc : p.ctr + j < 18446744073709551616 := by
+    have : p.layers ≠ [] := by unfold Pol.layers; split <;> simp
+    obtain ⟨l, hl⟩ := List.exists_mem_of_ne_nil _ this
+    have := hb l hl
+    omega
+  have hq : Inv q := ⟨hp.a0, hp.a1, hp.a2, hp.t0, hp.t1, hp.t2⟩
+  have hs : q.pickScan up = ⟨rrSeq up (p.ctr + j + 1) [p.l0, p.l1, p.l2], false⟩ := by
+    rw [pickScan_small q up (fun l hl => hb l hl)]
+    unfold Pol.pickSeq
+    rw [rrSeq_layers q hq]
+  refine ⟨repeat_pick up j p hc, hs, ?_⟩
+  rw [hs]
+  have := tierFirst_rrSeq p hp up (fun _ => true) (p.ctr + j + 1) t ht
+  rw [filter_true_id] at this
+  simp only
+  rw [this, firstOf_eq]
+  have e : (fun h : Host => up h.id && true) = (fun h => up h.id) := by funext h; simp
+  rw [e]
+
+/-- non-vacuity, shape 1/4/3 (rack-aware): the third successive pick offers the local rack's only host, then the
+local-DC tier starting at ITS position 0 and the remote tier starting at ITS position 1; the fourth one position
+further in every tier -/
+example :
+    ((Nat.repeat (fun q => (q.pick (fun _ => true)).1) 2 rotP).pickScan (fun _ => true)).offered.map (·.id)
+      = [1, 2, 3, 4, 5, 7, 8, 6] ∧
+    ((Nat.repeat (fun q => (q.pick (fun _ => true)).1) 3 rotP).pickScan (fun _ => true)).offered.map (·.id)
+      = [1, 3, 4, 5, 2, 8, 6, 7] := by decide
+
+/-- THE HISTOGRAM over whole periods, for every layer (any size), every predicate "can be offered" (`f`: up, and
+not offered by the replica phases), every counter value `c` and every number `k` of periods: over the `k·n`
+successive shifts `c+1 … c+k·n` a host `h` is the first host offered from the layer exactly `k·w(h)` times, where
+the SPECIFICATION's weight `w(h)` = the number of list positions from which `h` is the first host that can be
+offered scanning cyclically (`specWeight`; every start position is used `k` times). A host that can be offered has
+`1 ≤ w(h)`, and `w(h) ≤ 1 + d` with `d` listed hosts that cannot be offered; with every listed host up and
+unused, `w(h) = 1`: every host is the first of its tier exactly `k` times. -/
+theorem C11_rotation_histogram (f : Host → Bool) (l : List Host) (h : Host) (c k : Nat) (hl : l ≠ []) :
+    (List.range (k * l.length)).countP (fun p => firstOf f (c + 1 + p) l == some h) = k * specWeight f l h ∧
+    (h ∈ l → f h = true → 1 ≤ specWeight f l h) ∧
+    (l.Nodup → specWeight f l h ≤ 1 + l.countP (fun x => !f x)) ∧
+    (l.Nodup → (∀ x ∈ l, f x = true) → h ∈ l → specWeight f l h = 1) := by
+  have hpos : 0 < l.length := List.length_pos_iff.mpr hl
+  have h1 := firstOf_hist f l h c (k * l.length) hl
+  have e1 : k * l.length / l.length = k := Nat.mul_div_cancel k hpos
+  have e2 : ceilDiv (k * l.length) l.length = k := by
+    unfold ceilDiv
+    rw [e1, Nat.mul_mod_left]
+    simp
+  rw [e1, e2] at h1
+  refine ⟨Nat.le_antisymm h1.2 h1.1, specWeight_pos f l h, fun hn => specWeight_le f l hn h, ?_⟩
+  intro hn hall hm
+  have lo := specWeight_pos f l h hm (hall h hm)
+  have hi := specWeight_le f l hn h
+  have d0 : l.countP (fun x => !f x) = 0 := by
+    rw [List.countP_eq_zero]
+    intro x hx
+    simp [hall x hx]
+  omega
+
+/-- non-vacuity: layer a, B, c, d with B down — a and d are the first host from one start position each, c from
+two (its own and B's): over 2 periods a, c, d are first 2, 4, 2 times -/
+example :
+    let l : List Host := [⟨1, 1, 0, 0, []⟩, ⟨2, 2, 0, 0, []⟩, ⟨3, 3, 0, 0, []⟩, ⟨4, 4, 0, 0, []⟩]
+    let f : Host → Bool := fun h => h.id != 2
+    [1, 3, 4].map (fun i => (List.range 8).countP (fun p => firstOf f (10 + 1 + p) l == some ⟨i, i, 0, 0, []⟩)) = [2, 4, 2] := by
+  decide
+
+/-- THE ROTATION SUB-CLAIM as the op `rotate` checks it, in every reachable state of every round-robin based
+policy alone (query without routing key) or as the fallback of the token-aware policy (any history of AddHost /
+RemoveHost / HostUp / HostDown / replica tables / KeyspaceChanged / earlier picks / counter presets), any up/down
+state — hosts that are down but still listed included —, any query, any shuffles (one per pick, each permuting),
+and ANY number `m` of successive `Pick`s each drained with nothing in between, below the counter bound of
+KF-C11-3: no iterator panics, and `rotateVerdict = none`, i.e. for EVERY tier `t` with `n` listed hosts of which
+`d` cannot be offered after the replica phases (down, or offered by the replica phases), every other host of
+the tier is the FIRST host offered from the tier by at least ⌊m/n⌋ and at most ⌈m/n⌉·(1+d) of the `m`
+iterators — with d = 0: every up host of the tier the same number of times ±1. -/
+theorem C11_rotation_balanced_partial (k : Kind) (ldc lrack : Nat) (sh nl ps : Bool) (sess : Option Nat) (ops : List TAOp)
+    (up : Nat → Bool) (σs : Nat → List Host → List Host) (hσ : ∀ i l, (σs i l).Perm l)
+    (rk : Option (Nat × Nat)) (m : Nat) :
+    let t := ops.foldl TA.apply (TA.new (Pol.new k ldc lrack) sh nl ps sess)
+    (∀ l ∈ t.pol.layers, t.pol.ctr + m + l.length < 9223372036854775808) →
+    (∀ r ∈ TA.rotateRun t up σs rk 0 m, r.2.crashed = false) ∧
+    (∀ r ∈ TA.rotateRun t up σs rk 0 m, ∃ j, j < m ∧
+        (t.withCtr (t.pol.ctr + j)).pickScan up (σs j) rk = ⟨r.1 ++ r.2.offered, r.2.crashed⟩) ∧
+    t.rotateVerdict up σs rk m = none := by
+  intro t hb
+  have hp : Inv t.pol := TAInv_run _ (Inv_new k ldc lrack) ops
+  have hc : t.pol.ctr + m < 18446744073709551616 := by
+    have : t.pol.layers ≠ [] := by unfold Pol.layers; split <;> simp
+    obtain ⟨l, hl⟩ := List.exists_mem_of_ne_nil _ this
+    have := hb l hl
+    omega
+  have main := rotateVerdict_none t hp up σs hσ rk m hb
+  refine ⟨main.1, ?_, main.2⟩
+  intro r hr
+  rw [rotateRun_eq up σs rk m t 0 hc, List.mem_map] at hr
+  obtain ⟨j, hj, rfl⟩ := hr
+  refine ⟨j, List.mem_range.mp hj, ?_⟩
+  rw [pickScan_parts, Nat.zero_add]
+
+
+/-- non-vacuity: 12 picks over 1/4/3, all up: balanced; with host 3 down but listed: balanced as well (host 4 is
+first 6 times, 2 and 5 three times each) -/
+example :
+    (TA.new rotP false false false).rotateVerdict (fun _ => true) (fun _ l => l) none 12 = none ∧
+    (TA.new rotP false false false).rotateVerdict (fun i => i != 3) (fun _ l => l) none 12 = none ∧
+    [2, 4, 5].map (fun i => firstHits rotP.tier 1
+      ((TA.rotateRun (TA.new rotP false false false) (fun i => i != 3) (fun _ l => l) none 0 12).map (·.2.offered))
+      ⟨i, i, 0, 1, []⟩) = [3, 6, 3] := by
+  decide
+
+/-! FULL CLAIM ("every up host of a tier is the first one offered from it the same number of times ±1") — holds
+with d = 0 (third part of `C11_rotation_histogram`: weight 1 for every host). The unchanged code does NOT satisfy
+it while a host of the tier is down but still listed, or was offered by the replica phases: the scan starts at
+every LISTED position equally often and skips forward, so the host after such hosts takes their turns as well
+(weight 1 + the length of the run before it). Proposed finding KF-C11-6 (low severity). -/
+
+/-- COUNTEREXAMPLE to the ±1 form with d > 0 (kernel-checked). (1) round-robin over a, B, c, d with B down but
+listed: over 8 successive picks a, c, d are the first host offered 2, 4, 2 times. (2) token-aware over round-robin,
+hosts 1..6, replicas 1, 2 of the query's token both offered by the replica phases: after them, over 12 successive
+picks of the same query, hosts 3, 4, 5, 6 come first 6, 2, 2, 2 times — the host listed after the replicas gets
+three times the share of the others. Both verdicts are `balanced` in the sense of `tierBalanced` (bounds with d). -/
+theorem C11_cex_down_listed_double_share :
+    (let l : List Host := [⟨1, 1, 0, 0, []⟩, ⟨2, 2, 0, 0, []⟩, ⟨3, 3, 0, 0, []⟩, ⟨4, 4, 0, 0, []⟩]
+     let t := TA.new { Pol.new .rr 0 0 with l0 := l } false false false
+     [1, 3, 4].map (fun i => firstHits t.pol.tier 0
+        ((TA.rotateRun t (fun i => i != 2) (fun _ l => l) none 0 8).map (·.2.offered)) ⟨i, i, 0, 0, []⟩) = [2, 4, 2] ∧
+     t.rotateVerdict (fun i => i != 2) (fun _ l => l) none 8 = none) ∧
+    (let l : List Host := [⟨1, 1, 0, 0, []⟩, ⟨2, 2, 0, 0, []⟩, ⟨3, 3, 0, 0, []⟩, ⟨4, 4, 0, 0, []⟩, ⟨5, 5, 0, 0, []⟩, ⟨6, 6, 0, 0, []⟩]
+     let t : TA := { TA.new { Pol.new .rr 0 0 with l0 := l } false false true with
+       hosts := l, replicas := [(0, [(100, [⟨1, 1, 0, 0, []⟩, ⟨2, 2, 0, 0, []⟩])])] }
+     t.headOf (fun _ => true) id (some (0, 50)) = [⟨1, 1, 0, 0, []⟩, ⟨2, 2, 0, 0, []⟩] ∧
+     [3, 4, 5, 6].map (fun i => firstHits t.pol.tier 0
+        ((TA.rotateRun t (fun _ => true) (fun _ l => l) (some (0, 50)) 0 12).map (·.2.offered)) ⟨i, i, 0, 0, []⟩) = [6, 2, 2, 2] ∧
+     t.rotateVerdict (fun _ => true) (fun _ l => l) (some (0, 50)) 12 = none) := by
+  decide
+
+/-- REGRESSION for the seeded change C11-8 (kernel-checked): the variant that reduces the shift modulo the size of
+the local rack before using it for every tier (`rrSeqReduced`). On the shape 1/4/3 all 12 drained sequences are
+still complete and tier ordered, but the local-DC tier always starts at the same host — the verdict is `skewed:1`;
+on 3/3/3 the variant is indistinguishable (balanced). -/
+theorem C11_reduced_shift_skewed :
+    let seqs := (List.range 12).map (fun p => rrSeqReduced (fun _ => true) (p + 1) [rotP.l0, rotP.l1, rotP.l2])
+    rotVerdict rotP.tier (fun _ => true) [rotP.l0, rotP.l1, rotP.l2] seqs = some 1 ∧
+    (∀ s ∈ seqs, s.length = 8) ∧
+    firstHits rotP.tier 1 seqs ⟨3, 3, 0, 1, []⟩ = 12 ∧
+    (let l3 : List Host := [⟨1, 1, 0, 0, []⟩, ⟨2, 2, 0, 0, []⟩, ⟨3, 3, 0, 0, []⟩]
+     rotVerdict (fun _ => 0) (fun _ => true) [l3] ((List.range 12).map (fun p => rrSeqReduced (fun _ => true) (p + 1) [l3])) = none) := by
   decide
 
 end C11
